@@ -1,6 +1,8 @@
 (* C02  Pending readiness is always dispatched (no lost or starved events). *)
 From CV Require Import Base Consts Token PostAction Env Loop.
-From CVP Require Import Loop_frames Seq_lemmas Env_lemmas.
+From Coq Require Import Permutation.
+From CVP Require Import Loop_frames Seq_lemmas Env_lemmas C01_attr C02_deliver.
+Import ListNotations.
 Open Scope N_scope.
 
 (* level-triggered: a registered entry that is ready for its interest is reported by every wait *)
@@ -21,13 +23,56 @@ Proof. exact ep_report_edge. Qed.
 Theorem C02_due_timers_all_popped : forall l now ex rest, wh_expire (length l) l now = (ex, rest) ->
   Forall (fun e => (now < w_dl e)%Z) rest.
 Proof. intros l now ex rest H. destruct (wh_expire_spec (length l) l now ex rest H) as (_ & _ & _ & _ & F). apply F. apply le_n. Qed.
-(* an event whose slot resolves is handed to that slot's dispatcher: process_event runs obj_process on it *)
-Theorem C02_event_reaches_source : forall scr s ev sl o,
+(* FROM THE POLLER TO THE CALLBACK, nothing is dropped on the way.
+   (1) one poll hands the loop every level-triggered entry that is ready for its interest and every timer that is due - the batch
+       order is the implementation's, but reordering loses nothing (`reorder_perm`); *)
+Theorem C02_poll_reports_every_ready_level_entry : forall e t order ent, In ent (epoll e) -> e_mode ent = Level ->
+  rd_nonempty (ready_for (e_int ent) (fdc e (e_fd ent))) = true ->
+  In (mkEv (e_key ent) (ready_for (e_int ent) (fdc e (e_fd ent)))) (fst (poll e t order)).
+Proof. exact poll_reports_level. Qed.
+Theorem C02_poll_reports_every_due_timer : forall e t order w, In w (wh_heap (whl e)) -> (w_dl w <= 2 * t + 1)%Z ->
+  In (mkEv (pack (w_tok w)) (mkRd true false)) (fst (poll e t order)).
+Proof. exact poll_reports_due_timer. Qed.
+Theorem C02_batch_is_a_permutation : forall order l, Permutation (reorder order l) l.
+Proof. exact reorder_perm. Qed.
+(* (2) a batch that is processed without an error is processed event by event: each event is handed to process_event in the state
+       reached by the events before it (an Err stops the batch: finding F4); *)
+Theorem C02_ok_batch_processes_every_event : forall scr s a ev b, snd (process_events scr s (a ++ ev :: b)) = true ->
+  exists s1, process_events scr s a = (s1, true) /\ snd (process_event scr s1 ev) = true /\
+             process_events scr s (a ++ ev :: b) = process_events scr (fst (process_event scr s1 ev)) b.
+Proof. exact ok_batch_processes_every_event. Qed.
+(* (3) an event whose slot resolves to object o is handed to o, and if o holds the event's token its callback counter goes up by
+       exactly one - for a composite (own token or a sub-source's), a Timer (its armed token) and a ping source (its token, with a
+       ping pending); nothing after the callback (post action, deferred unregistration, end of processing) touches the counter.
+       With C01_callbacks_attributed (only then) this is: exactly the sources whose events are in the batch are called. *)
+Theorem C02_composite_event_invokes_callback : forall scr s o ob ev lc own subs tmr,
+  objs s o = Some ob -> o_src ob = SComp lc own subs tmr ->
+  (opt_tok_is own (unpack (ev_key ev)) = true \/ find_sub subs (unpack (ev_key ev)) 1 <> None) ->
+  Loop.cbn (fst (obj_process scr s o ev)) o = S (Loop.cbn s o).
+Proof. exact composite_event_invokes_callback. Qed.
+Theorem C02_timer_event_invokes_callback : forall scr s o ob ev tm tk c dl,
+  objs s o = Some ob -> o_src ob = STimer tm -> tm_reg tm = Some (tk, c) -> tm_dl tm = Some dl -> tok_eqb tk (unpack (ev_key ev)) = true ->
+  Loop.cbn (fst (obj_process scr s o ev)) o = S (Loop.cbn s o).
+Proof. exact timer_event_invokes_callback. Qed.
+Theorem C02_ping_event_invokes_callback : forall scr s o ob ev g,
+  objs s o = Some ob -> o_src ob = SPing g -> opt_tok_is (g_tok g) (unpack (ev_key ev)) = true -> 2 <= fdc (en s) (g_fd g) ->
+  Loop.cbn (fst (obj_process scr s o ev)) o = S (Loop.cbn s o).
+Proof. exact ping_event_invokes_callback. Qed.
+Theorem C02_rest_of_processing_keeps_the_count : forall scr s ev sl o,
   slot_get (slots s) (forget_sub_id (unpack (ev_key ev))) = Some sl -> s_obj sl = Some o ->
-  exists s2 ret, obj_process scr (set_running s (Some (o, forget_sub_id (unpack (ev_key ev))))) o ev = (s2, ret).
-Proof. intros. eexists. eexists. apply surjective_pairing. Qed.
+  Loop.cbn (fst (process_event scr s ev)) = Loop.cbn (fst (obj_process scr (set_running s (Some (o, forget_sub_id (unpack (ev_key ev))))) o ev)).
+Proof. exact process_event_keeps_count_of_obj_process. Qed.
 
 Example C02_nonvacuous :
   let e := mkEp 10 (mkInt true false) Level 77 false in
   In (mkEv 77 (mkRd true false)) (fst (ep_wait (fun _ => 2) [e])).
 Proof. vm_compute. left. reflexivity. Qed.
+(* the whole path on a real history: a composite over fd 10 (readable) and a timer due at phase 0 are both in the batch of one
+   dispatch, whatever order is asked for, and both callbacks run once *)
+Example C02_delivery_nonvacuous :
+  let pre := [CAct (AInsert 1 (SComp false None [mkGen 10 (mkInt true false) Level None false] None));
+              CAct (AInsert 2 (STimer (mkTimer None (Some 0%Z) false))); CAct (AFdWrite 10 1)] in
+  let a := run (fun _ => []) (fun _ => []) pre in
+  let b := run (fun _ => []) (fun _ => []) (pre ++ [CDispatch 0%Z [4294967296; 1]]) in
+  length (fst (poll (en a) 0%Z [4294967296; 1])) = 2%nat /\ (Loop.cbn a 1, Loop.cbn a 2) = (0, 0)%nat /\ (Loop.cbn b 1, Loop.cbn b 2) = (1, 1)%nat.
+Proof. vm_compute. repeat split. Qed.
